@@ -175,6 +175,19 @@ def _exec_single(job):
     dtype = float if job["dtype"] == "float" else int
     args = R.build_special(row, rng, n, diag=not job.get("zero_diag"), dtype=dtype,
                            arbitrary_labels=True, vkey=job["vkey"])
+    if job["dtype"] == "float" and job["seed"] % 5 == 0:
+        # matrices that come out of floating-point pipelines carry round-off noise: a few entries
+        # that "should" be zero are +-1e-12 (inside every routine's own tolerance for negativity)
+        for i, a in enumerate(args):
+            if isinstance(a, np.ndarray) and a.ndim == 2 and a.shape[0] == a.shape[1] and a.dtype.kind == "f":
+                a = a.copy()
+                zi, zj = np.where(a == 0)
+                for t in rng.sample(range(len(zi)), min(3, len(zi))):
+                    if zi[t] != zj[t]:
+                        a[zi[t], zj[t]] = rng.choice([-1e-12, 1e-13, -3e-11])
+                        if (args[i] == args[i].T).all():
+                            a[zj[t], zi[t]] = a[zi[t], zj[t]]
+                args[i] = a
     if job["dtype"] == "bool":
         # boolean adjacency matrices (e.g. W > thr) are a natural caller-side type: every integer
         # matrix argument whose entries are all 0/1 is passed as bool; rows without one are skipped
